@@ -17,6 +17,13 @@ func GroupBy(size int, underlying interface{}) (Iterator, error) {
 	u := reflect.Indirect(reflect.ValueOf(underlying))
 
 	group := []reflect.Value{}
+	if u.Kind() == reflect.Array && !u.CanAddr() {
+		// an array passed by value must be copied before it can be sliced
+		a := reflect.New(u.Type()).Elem()
+		a.Set(u)
+		u = a
+	}
+
 	switch u.Kind() {
 	case reflect.Array, reflect.Slice:
 		if u.Len() == size {
